@@ -18,6 +18,7 @@ def run(rep, tier):
     cells = opcells.multi_target_cells(tier, common.seed())
     rep.bounds.update({"cells": len(cells), "operands": "every ordered duplicate-free choice among e0/e1(/e2) polarizations, Fock pairs, custom state",
                        "structures": "vf/rtc/layouts.py STRUCTS, STRUCTS3", "max_members_per_product_space": 4})
-    RUN.evaluate(rep, CE.run_cells(cells), ["C03", "C01"])
+    from . import bcommon as B
+    B.run_b(rep, cells, ["C03", "C01"], tier=tier)
     rep.assume("level B compares in complex128 at 1e-8; amplitudes sampled (one seed per cell), structure enumerated",
                "jnp.einsum / reshape / kron / expm are trusted (JAX)")
